@@ -364,6 +364,8 @@ def max_families():
     out.append(make('spawn_thread_despawn_p1', 2, 1, 0, [SPAWN(), D(1), D(2), S(1), S(2), BARRIER(), DESPAWN(), D(1), S(1)], extra_pool=2))
     out.append(make('spawn_thread_race_p1', 2, 1, 0, [SPAWN(), D(1), S(1)], [D(2), S(2)], extra_pool=2))
     out.append(make('raise_max_p0', 2, 0, 0, [D(1), SETMAX(2), D(2), D(1)], [S(1), S(2)], extra_pool=2))
+    # a pool thread has been killed by a panicking job and is reaped by one caller while another caller schedules work
+    out.append(make('panic_reap_race_p2', 5, 2, 0, [D(1, panic=True), D(2), S(2), BARRIER(), D(3)], [BARRIER(), D(4), D(5)], extra_pool=3))
     return out
 
 
